@@ -73,3 +73,14 @@ Lemma qm_queryless_variant_ex_w :
   map (fun '(k, e) => (k, map (fun v => (v_tuple v, qmx (v_resp v))) (ex_vars e))) (fst (fst (run_cfgx_state true w6r_cx w6q_ops)))
   = [(KPath (B "/v"), [([B "a"], false)])].
 Proof. repeat split; vm_compute; reflexivity. Qed.
+
+(** the same history on the model WITHOUT the key-kind guard of [handle_vary_missing] ([cx_fix_qmkey] off: the code before
+    its repair).  The seeded change C03-10 ("a QueryMatters response may join a path-keyed item when its request has no
+    query") admits exactly the variants this history pushes — both pushing requests are query-less —, so on this history it
+    behaves as the unguarded model: the QueryMatters variant sits in the path-keyed entry and is served for /v?id=7. *)
+Lemma qm_queryless_variant_refuted_w :
+  bodies (run_cfgx true w6_cx w6q_ops) = [B "static-a"; B "b:/v"; B "b:/v"; B "b:/v"] /\
+  bodies (run_cfgx false w6_cx w6q_ops) = [B "static-a"; B "b:/v"; B "b:/v?id=7"; B "b:/v"] /\
+  map (fun '(k, e) => (k, map (fun v => (v_tuple v, qmx (v_resp v))) (ex_vars e))) (fst (fst (run_cfgx_state true w6_cx w6q_ops)))
+  = [(KPath (B "/v"), [([B "b"], true); ([B "a"], false)])].
+Proof. repeat split; vm_compute; reflexivity. Qed.
